@@ -100,6 +100,16 @@ type contractSet struct {
 	order       []string // func keys in file order
 	invariants  []*typeInvariant
 	ginvariants []*typeInvariant
+	guards      []*guardDecl
+}
+
+// guardDecl: fields of a struct that may only be accessed while its mutex is held.
+type guardDecl struct {
+	pkgPath  string
+	recvType string // "*Context"
+	mutex    string // field name of the mutex
+	fields   []string
+	where    string
 }
 
 // typeInvariant is sugar: the expression is added to the requires and ensures of
@@ -304,7 +314,7 @@ func (cs *contractSet) loadContractFile(path, pkgPath string) error {
 			trim = "g" + trim // "ginvariant (...) ..."
 			first = "ginvariant"
 		}
-		isHead := indent <= 1 && (first == "ginvariant" || first == "func" || first == "spec" || first == "axiom" || first == "lemma" || first == "ghost" || first == "interface" || first == "package" || first == "invariant")
+		isHead := indent <= 1 && (first == "guarded" || first == "ginvariant" || first == "func" || first == "spec" || first == "axiom" || first == "lemma" || first == "ghost" || first == "interface" || first == "package" || first == "invariant")
 		if isHead {
 			cur = &rawBlock{head: trim, line: i + 1}
 			blocks = append(blocks, cur)
@@ -334,6 +344,26 @@ func (cs *contractSet) loadContractFile(path, pkgPath string) error {
 			if pkgPath == "builtin" {
 				pkgPath = ""
 			}
+		case "guarded":
+			// guarded (c *Context) c.mu: byID, toType, toValue
+			rest := strings.TrimSpace(strings.TrimPrefix(b.head, "guarded"))
+			end := strings.Index(rest, ")")
+			colon := strings.Index(rest, ":")
+			if !strings.HasPrefix(rest, "(") || end < 0 || colon < end {
+				return fmt.Errorf("%s: bad guarded declaration", where)
+			}
+			rf := strings.Fields(rest[1:end])
+			mu := strings.TrimSpace(rest[end+1 : colon])
+			if len(rf) != 2 || !strings.HasPrefix(mu, rf[0]+".") {
+				return fmt.Errorf("%s: bad guarded declaration", where)
+			}
+			gd := &guardDecl{pkgPath: pkgPath, recvType: rf[1], mutex: strings.TrimPrefix(mu, rf[0]+"."), where: where}
+			for _, f := range strings.Split(rest[colon+1:], ",") {
+				if f = strings.TrimSpace(f); f != "" {
+					gd.fields = append(gd.fields, f)
+				}
+			}
+			cs.guards = append(cs.guards, gd)
 		case "invariant", "ginvariant":
 			// invariant (w *Writer) expr
 			rest := strings.TrimSpace(strings.TrimPrefix(b.head, f[0]))
